@@ -11,5 +11,7 @@ CONSTANTS
   Targets = {"v1", "v2", "v3"}
   WriteBack = TRUE
   RemovePart = TRUE
+  LockedMerge = TRUE
+  WithPar = TRUE
   MaxOps = 6
   WithFaults = TRUE
